@@ -15,7 +15,7 @@ SRCS=$(sed -n '/set(Scientific_C_SRCS/,/)/p' "$SRC/CMakeLists.txt" | tr '()' '  
 
 case "$VARIANT" in
   sim)   CF="-O0 -g -fsanitize=thread -fno-omit-frame-pointer -fPIC -fsemantic-interposition" ;;  # -O0: every source-level access stays visible to the scheduler and the race detector (at -O1 clang inlines across exported functions and deletes write-only statics, hiding real races of the shipped -fPIC gcc build)
-  asan)  CF="-O1 -g -fsanitize=address,undefined -fno-sanitize=nonnull-attribute -fno-sanitize-recover=undefined -fsanitize-coverage=trace-pc-guard -fno-omit-frame-pointer" ;;
+  asan)  CF="-O1 -g -fsanitize=address,undefined -fno-sanitize=nonnull-attribute,float-cast-overflow -fno-sanitize-recover=undefined -fsanitize-coverage=trace-pc-guard -fno-omit-frame-pointer" ;;
   plain) CF="-O1 -g" ;;
   *) echo "unknown variant $VARIANT" >&2; exit 2 ;;
 esac
